@@ -19,7 +19,9 @@ TECHNIQUE = (
     "every connect/write/read result are logged and checked offline (routing activation bytes, ack matching within 2 s, reads = "
     "user data of target->source diagnostic messages in arrival order, alive-check answered within 0.5 s), under enumerated split "
     "points and interleavings; usage variations: a second live connection (own gateway, address pair, traffic) in the same event loop "
-    "whose history is judged separately against ITS stream, and several tasks (writers, a reader) using one connection at once"
+    "whose history is judged separately against ITS stream, several tasks (writers, a reader) using one connection at once, targets behind a "
+    "gateway (routing activation answered with the gateway's own logical address), and writes whose CALLER gives up (write(timeout=t), t shorter "
+    "than the gateway's acknowledgement delay) followed by further reads/writes/alive checks on the same open connection"
 )
 LEVEL_TEXT = (
     "Exploration with exhaustive sub-spaces: all 256 activation types x protocol versions x address pairs and every routing "
@@ -32,11 +34,17 @@ LEVEL_TEXT = (
     "shifted start) - each connection is judged on its own history, data of the other stream counts as foreign. One connection used by "
     "2-3 writer tasks plus optionally a reader task: every request acknowledged in time, the whole alphabet around the acks, frames "
     "mostly in segments of their own; writes judged from the transmission of their request, reads for content/order/no loss. "
+    "In every family the routing activation response carries, for about half of the cases, a logical address of the answering entity other than "
+    "the target address (ECU behind a gateway). Random programs (single and paired connections): about one write in seven is given up by its "
+    "caller before the - slow, mostly still legal - acknowledgement arrives (timeouts at 0.2/0.5/0.9 of the delay; positive/negative/late/no ack; "
+    "other frames before the timeout); the connection is then used on (reads, writes, idle phases with alive checks) while the acknowledgement "
+    "comes in, and drained; other writes carry a caller timeout that never strikes. "
     "Held = held on those histories (known findings listed apart)."
 )
 LEVEL_NOTE = "Trusted: frame builders and offline checker in vf/checks/c06.py, gateway simulator vf/gateway.py, virtual clock. Only well-formed frames (corrupt headers belong to C08)."
 RULE = (
-    "cases = (URI parameters, routing activation response, client op program or concurrent task programs, gateway frame script with delays, "
+    "cases = (URI parameters, routing activation response incl. the answering entity's address, client op program (with caller timeouts of reads and writes) "
+    "or concurrent task programs, gateway frame script with delays, "
     "segmentation plan, optionally the same for a second connection of the same event loop plus its start offset); "
     "non-trivial = the script contains at least one frame other than the awaited one or a split inside a frame; distinct = distinct case "
     "tuples; distinct_traces = distinct (frame label / op result) sequences"
@@ -48,6 +56,13 @@ ASSUMPTIONS = [
     "several tasks on one connection: the acknowledgement time of a write runs from the moment its request frame is on the stream; requests differ in their "
     "first bytes and acks echo at least one byte, so every ack belongs to exactly one request; no read timing is demanded while other tasks hold the connection",
     "two connections in one event loop carry different user data, so data delivered on the wrong connection is recognisable",
+    "a write that its caller gives up before the acknowledgement: the request is unique and the (later) acknowledgement echoes all of it, so it matches no later "
+    "request; the statement fixes no outcome for that write itself (a timeout or a connection error within the acknowledgement time is accepted, completion is not); "
+    "on a timeout the connection counts as open and everything after it is judged as usual",
+    "a diagnostic message for our address pair that is undelivered in the connection's queue, or arrives, while a write that its caller then gives up waits for its ack must "
+    "still be delivered to a later read (generated since /repo bf4f29f repaired it; before, such messages were lost with the cancelled ack wait because "
+    "DoIPConnection._read_ack kept skipped frames in a local list). DATA_BEFORE_CALLER_TIMEOUT = False switches this part of the workload off",
+    "the gateway simulator sends in the order of scheduling: frames scheduled after a slow acknowledgement arrive after it",
 ]
 EXHAUSTIVE = {"quick": False, "thorough": False}
 EXHAUSTIVE_NOTE = "exhaustive: 256 activation types, 256 routing activation response codes, pre-ack scripts to length 3/4, every single split point of the base scripts"
@@ -55,6 +70,12 @@ EXHAUSTIVE_NOTE = "exhaustive: 256 activation types, 256 routing activation resp
 ACK_TIME = 2.0
 ALIVE_TIME = 0.5
 TOL = 1e-3
+GTOL = 1e-5  # a caller's timeout against a frame arrival on the virtual clock (the next operation's frames may follow 1 ms later)
+# a write whose CALLER gives up (write(timeout=t), t shorter than the gateway's still-legal ack delay): does the generator let a
+# diagnostic message for our address pair arrive between the request and the caller's timeout? On the unchanged tree such a message is
+# lost together with the cancelled ack wait (reported to the maintainers of the check, not judged) - see ASSUMPTIONS
+DATA_BEFORE_CALLER_TIMEOUT = True
+GIVEUP_HEADS = ["22f1a0", "1083", "3e80", "2e567800"]  # requests of writes whose caller gives up: no other request starts like them
 LETTERS = ["D", "F", "A", "U", "H", "K", "X"]  # diag-for-us, foreign diag, alive check, unknown type, header nack, foreign ack, wrong-echo ack
 # a negative ack with our address pair ("N") is a matching acknowledgement: it is an ack kind, never an injected frame, and nothing
 # that would match follows it in the same reaction (a stale matching ack cannot be told from a genuine one)
@@ -112,7 +133,12 @@ def required_reach(tier: str) -> dict[str, int]:
             "pair.other-wait-ends-while-data-set-aside-in-ack-wait": 100, "#pair.family.": 7,
             # several tasks on one connection, the gateway alphabet around the acks, frames in segments of their own
             "conc.histories": 200, "conc.writes-overlap": 200, "conc.read-overlaps-write": 50, "conc.non-ack-frame-while-writes-pending.own-segment": 200,
-            "conc.ack-while-other-write-pending": 200, "conc.write-acked": 500, "conc.write-nacked": 20}
+            "conc.ack-while-other-write-pending": 200, "conc.write-acked": 500, "conc.write-nacked": 20,
+            # the target is an ECU behind a gateway: the routing activation response carries the gateway's own logical address
+            "connect.success.entity-other-than-target": 500,
+            # a write whose caller gives up (own timeout shorter than the gateway's ack delay), then further use of the same connection
+            "write.caller-timeout-before-ack": 500, "write.caller-timeout-before-ack.ack-arrives-later": 300, "write.caller-timeout-before-ack.frames-before-it": 100,
+            "write.caller-timeout-generous": 200, "caller-timeout.then-read-delivered": 500, "caller-timeout.then-write-acked": 200}
 
 
 # ---- scenario -----------------------------------------------------------------------------------------
@@ -173,8 +199,16 @@ def base_scenario(rng: random.Random) -> dict[str, Any]:
     if tgt == src:
         tgt ^= 0x10
     return {"src": src, "tgt": tgt, "ver": rng.choice([1, 2, 3]), "act": rng.choice([0, 1, 0xE0]), "rar_code": 0x10, "rar_oem": None, "rar_delay": 0.01,
+            # logical address of the DoIP entity that answers the routing activation: None = the target itself (direct ECU), else a
+            # gateway with its own address in front of the target
+            "entity": rng.choice([None, None, 0x1010, 0x0001, rng.randrange(1, 0xFFFF)]),
             "pre_rar": [], "connect_timeout": rng.choice([None, 5.0]), "ops": [], "cuts": [], "bytewise": False,
             "dup": rng.choice([None, None, None, ("src_addr", "0x1"), ("target_addr", "0x2"), ("activation_type", "0x1" if rng.random() < 0.5 else "0xe1"), ("protocol_version", "1")])}
+
+
+def entity_of(sc: dict[str, Any]) -> int:
+    e = sc.get("entity")
+    return sc["tgt"] if e is None or e == sc["src"] else e  # (a gateway does not have the tester's address)
 
 
 def uri(sc: dict[str, Any]) -> str:
@@ -210,7 +244,10 @@ class Hub:
         return self
 
     def __exit__(self, *a: Any) -> None:
-        asyncio.open_connection = self._orig  # type: ignore[assignment]
+        # (the scenario coroutine of a run that ended in Deadlock is only unwound when it is collected, possibly while a later
+        # scenario - with its own Hub - is running: never take away another Hub's patch)
+        if asyncio.open_connection == self.open_connection:
+            asyncio.open_connection = self._orig  # type: ignore[assignment]
 
 
 async def run_conn(sc: dict[str, Any], hub: Hub) -> dict[str, Any]:
@@ -233,7 +270,7 @@ async def run_conn(sc: dict[str, Any], hub: Hub) -> dict[str, Any]:
                     b, lab = spec_frame(sc, spec, None)
                     g.send(d, b, lab)
                 if sc["rar_code"] is not None:
-                    g.send(sc["rar_delay"], f_rar(sc["ver"], sc["src"], sc["tgt"], sc["rar_code"], bytes.fromhex(sc["rar_oem"]) if sc["rar_oem"] else None), "RAR")
+                    g.send(sc["rar_delay"], f_rar(sc["ver"], sc["src"], entity_of(sc), sc["rar_code"], bytes.fromhex(sc["rar_oem"]) if sc["rar_oem"] else None), "RAR")
             elif ptype == 0x8001 and reactions.get(fr[12:]):
                 react = reactions[fr[12:]].pop(0)
                 req = fr[12:]
@@ -358,8 +395,11 @@ def check_connect(ctx: Any, sc: dict[str, Any], out: dict[str, Any], w: dict[str
     c = out["connect"]
     if ok_expected:
         ctx.reach("connect.success")
+        behind = entity_of(sc) != tgt
+        if behind:
+            ctx.reach("connect.success.entity-other-than-target")
         if c[0] != "ok":
-            ctx.violation(f"connect/success-code-not-usable/{'oem-field' if sc['rar_oem'] else 'plain'}/{c[2]}", "gateway answered routing activation with the success code but connect() failed", {**w, "connect": c})
+            ctx.violation(f"connect/success-code-not-usable/{'+'.join((['oem-field'] if sc['rar_oem'] else []) + (['entity-other-than-target'] if behind else [])) or 'plain'}/{c[2]}", "gateway answered routing activation with the success code but connect() failed", {**w, "connect": c})
             return False
     else:
         ctx.reach("connect.denied")
@@ -394,6 +434,8 @@ def check(ctx: Any, sc: dict[str, Any], out: dict[str, Any], top: dict[str, Any]
     data_before_ack = False
     undelivered_during_ack = False
     used_acks: set[int] = set()
+    gave_up = False  # an earlier write of this connection ended by its CALLER's timeout, the connection stayed open
+    data_in_gave_up = False  # ... and a diagnostic message for us was undelivered in the queue / arrived while that write waited for its ack
     for o in out["ops"]:
         ts, te, res = o["ts"], o["te"], o["res"]
         if closed_at is not None:
@@ -409,10 +451,13 @@ def check(ctx: Any, sc: dict[str, Any], out: dict[str, Any], top: dict[str, Any]
                 ctx.violation("write/request-frame", "write() did not put exactly the diagnostic message source->target on the stream", {**w, "op": o})
                 return
             wi += 1
-            # first matching ack within the ack time
+            # first matching ack within the ack time - and, when the caller passed a timeout of its own (write(timeout=t)), before the
+            # caller gives up: an acknowledgement that arrives after the write has returned to its caller cannot complete it
+            limit = ts + ACK_TIME
+            t_giveup = ts + spec_op["timeout"] if spec_op.get("timeout") is not None else None
             match = None
             for gi, (t, f, l) in enumerate(gfr):
-                if gi in used_acks or t < ts - TOL or t > ts + ACK_TIME + TOL:
+                if gi in used_acks or t < ts - TOL or t > limit + TOL or (t_giveup is not None and t > t_giveup + GTOL):
                     continue
                 pt = struct.unpack("!H", f[2:4])[0]
                 if pt in (0x8002, 0x8003):
@@ -422,10 +467,43 @@ def check(ctx: Any, sc: dict[str, Any], out: dict[str, Any], top: dict[str, Any]
                         match = (t, pt, code, gi)
                         used_acks.add(gi)
                         break
-            limit = ts + ACK_TIME
+            # the CALLER's own timeout strikes before the gateway's - still legal - acknowledgement / before the acknowledgement time is
+            # over: the statement fixes no outcome for that write beyond "no completion without an ack, over within the acknowledgement
+            # time"; nothing was refused, so the connection stays open and every later operation is judged as usual (reads, writes,
+            # alive checks). The acknowledgement that arrives later echoes that whole request and belongs to no other one.
+            t_event, tol = (match[0], GTOL) if match is not None else (limit, TOL)
+            if t_giveup is not None and t_giveup <= t_event + tol:
+                if t_giveup > t_event - tol:
+                    ctx.reach("write.caller-timeout-at-ack")  # boundary (ack or end of the acknowledgement time): either outcome
+                    if res[0] != "ok" and res[2]:
+                        closed_at = te
+                    continue
+                ctx.reach("write.caller-timeout-before-ack")
+                if any(t_giveup < t <= limit and l in ("ACK", "TU", "N") and f[13:] == data for t, f, l in gfr):
+                    ctx.reach("write.caller-timeout-before-ack.ack-arrives-later")  # in time, on a connection that is in use for other things by then
+                if any(ts < t < t_giveup and l not in ("ACK", "TU", "N") for t, _, l in gfr):
+                    ctx.reach("write.caller-timeout-before-ack.frames-before-it")
+                if res[0] == "ok":
+                    ctx.violation("write/completes-without-ack/caller-timeout", "write() completed although no matching acknowledgement had arrived", {**w, "op": o})
+                elif res[2]:
+                    closed_at = te  # reported as a connection error: the connection counts as closed
+                elif not res[3]:
+                    ctx.violation(f"write/caller-timeout/{res[1]}", "a write that its caller gave up ends with something other than a timeout or a connection error", {**w, "op": o})
+                if te > limit + TOL:
+                    ctx.violation("write/no-ack/too-late", "write() did not end within the acknowledgement time", {**w, "op": o})
+                gave_up = gave_up or closed_at is None
+                if sum(1 for t, _, l in gfr if l == "D" and t < te) > len(delivered):
+                    data_in_gave_up = True  # (only generated with DATA_BEFORE_CALLER_TIMEOUT)
+                continue
+            if t_giveup is not None:
+                ctx.reach("write.caller-timeout-generous")
             if match is not None and match[0] > limit - TOL:
                 ctx.reach("write.ack-at-deadline")
                 if res[0] != "ok":
+                    if match[1] == 0x8003 and match[2] != 0x06:
+                        # a negative ack at the deadline: the write failed either by the nack (connection open) or by the ack time
+                        # (connection closed) - the API result does not tell which, the rest of this history is not judged
+                        return
                     closed_at = te
                 continue
             if match is not None and any(ts < a < match[0] for a, _ in our):
@@ -448,6 +526,8 @@ def check(ctx: Any, sc: dict[str, Any], out: dict[str, Any], top: dict[str, Any]
             positive = pt == 0x8002 or code == 0x06
             if pt == 0x8002:
                 ctx.reach("write.acked")
+                if gave_up:
+                    ctx.reach("caller-timeout.then-write-acked")
             elif code == 0x06:
                 ctx.reach("write.nack-target-unreachable")
             else:
@@ -469,6 +549,8 @@ def check(ctx: Any, sc: dict[str, Any], out: dict[str, Any], top: dict[str, Any]
             if res[0] == "ok":
                 delivered.append(res[1])
                 ctx.reach("read.delivered")
+                if gave_up:
+                    ctx.reach("caller-timeout.then-read-delivered")
             elif res[3]:
                 ctx.reach("read.timeout")
             else:
@@ -479,7 +561,11 @@ def check(ctx: Any, sc: dict[str, Any], out: dict[str, Any], top: dict[str, Any]
     horizon = closed_at if closed_at is not None else end
     expect = [d for a, d in our if a <= horizon + 1e-9]  # (+1e-9: the virtual clock may be an ulp behind the scheduled arrival time)
     if delivered != expect[: len(delivered)]:
-        if sorted(delivered) == sorted(expect[: len(delivered)]) or (set(delivered) <= set(expect) and len(set(delivered)) == len(delivered)):
+        it = iter(expect)
+        if data_in_gave_up and all(d in it for d in delivered):  # (delivered is expect with omissions)
+            ctx.violation("read/lost/data-skipped-by-a-write-its-caller-gave-up", "a diagnostic message that was set aside by the ack wait of a write, which its caller then gave up, was never returned by a read",
+                          {**w, "delivered": delivered, "expected": expect})
+        elif sorted(delivered) == sorted(expect[: len(delivered)]) or (set(delivered) <= set(expect) and len(set(delivered)) == len(delivered)):
             ctx.violation(f"read/out-of-order/{'requeue-during-ack-wait' if undelivered_during_ack else 'other'}", "reads deliver the diagnostic messages in another order than they arrived", {**w, "delivered": delivered, "expected": expect})
         elif other is not None and any(d not in expect and d in other_data(other) for d in delivered):
             ctx.violation("read/data-of-the-other-connection", "a read returned the user data of a diagnostic message that was sent on ANOTHER connection's stream", {**w, "delivered": delivered, "expected": expect})
@@ -506,7 +592,7 @@ def check(ctx: Any, sc: dict[str, Any], out: dict[str, Any], top: dict[str, Any]
         else:
             if nxt is not None and nxt[0] < ts + to - TOL:
                 blocked_alive = any(ts < t < te and l == "A" for t, _, l in out["g_frames"])
-                ctx.violation(f"read/lost-or-stalled/{'alive-while-blocked' if blocked_alive else ('data-before-ack' if data_before_ack else 'other')}",
+                ctx.violation(f"read/lost-or-stalled/{'write-its-caller-gave-up' if data_in_gave_up else 'alive-while-blocked' if blocked_alive else ('data-before-ack' if data_before_ack else 'other')}",
                               "a read timed out although a diagnostic message for it had arrived in time (frame lost or reader stalled)", {**w, "op": o, "arrived": nxt[0]})
                 return
     if closed_at is None and len(delivered) < len(expect) and sc.get("drained"):
@@ -712,9 +798,10 @@ def one(ctx: Any, sc: dict[str, Any], nontrivial: bool = True) -> dict[str, Any]
 
 
 # ---- workloads ------------------------------------------------------------------------------------------
-def reaction(rng: random.Random, sc: dict[str, Any], pre: list[str], ackkind: str, post: list[str], uid: list[int], separate: bool = False, echo1: bool = False) -> list[Any]:
+def reaction(rng: random.Random, sc: dict[str, Any], pre: list[str], ackkind: str, post: list[str], uid: list[int], separate: bool = False, echo1: bool = False, slow: bool = False) -> list[Any]:
     """separate: every frame of the reaction travels in a segment of its own (no two frames at the same instant);
-    echo1: acknowledgements echo at least one byte of the request (needed to tell the acks of several outstanding requests apart)"""
+    echo1: acknowledgements echo at least one byte of the request (needed to tell the acks of several outstanding requests apart);
+    slow: the gateway takes its time for the acknowledgement (mostly still inside the acknowledgement time) and echoes the whole request"""
     r: list[Any] = []
     d = 0.0
     z = [] if separate else [0.0]
@@ -723,12 +810,14 @@ def reaction(rng: random.Random, sc: dict[str, Any], pre: list[str], ackkind: st
         d += rng.choice(z + [0.001, 0.01, 0.2]) if r else rng.choice([0.001, 0.01, 0.2])
         r.append((round(d, 4), letter_spec(rng, sc, l, uid)))
     d += rng.choice(z + [0.001, 0.02, 0.3]) if r else rng.choice([0.001, 0.02, 0.3])
+    if slow:
+        d += rng.choice([0.05, 0.4, 0.9, 1.5])
     if ackkind == "ack":
-        r.append((round(d, 4), ["ACK", rng.choice([None, lo, 2, 5])]))
+        r.append((round(d, 4), ["ACK", None if slow else rng.choice([None, lo, 2, 5])]))
     elif ackkind == "tu":
-        r.append((round(d, 4), ["TU", rng.choice([lo, 2])]))
+        r.append((round(d, 4), ["TU", 99 if slow else rng.choice([lo, 2])]))
     elif ackkind == "nack":
-        r.append((round(d, 4), ["N", rng.choice([0x02, 0x03, 0x04, 0x05, 0x07, 0x08, 0x55]), rng.choice([lo, 2, 99])]))
+        r.append((round(d, 4), ["N", rng.choice([0x02, 0x03, 0x04, 0x05, 0x07, 0x08, 0x55]), 99 if slow else rng.choice([lo, 2, 99])]))
     elif ackkind == "late":
         r.append((round(2.0 + rng.choice([0.05, 0.5]), 4), ["ACK", None]))
     for l in post:
@@ -748,6 +837,26 @@ def scripted(rng: random.Random, pre: list[str], ackkind: str, post: list[str]) 
     return sc
 
 
+def settle_time(ops: list[dict[str, Any]]) -> float:
+    """after this long every frame scheduled by the ops so far has arrived (the gateway sends in the order of scheduling, so a frame
+    can be held up by any frame scheduled before it, e.g. a slow acknowledgement)"""
+    return round(0.01 + max([d for o in ops for d, _ in o.get("react", []) + o.get("arrive", [])] + [0.0]), 4)
+
+
+def giveup_write(rng: random.Random, sc: dict[str, Any], pre: list[str], ackkind: str, post: list[str], uid: list[int]) -> dict[str, Any]:
+    """a write whose CALLER gives up: write(timeout=t) with t shorter than the gateway's acknowledgement delay (which is mostly still
+    legal, < 2 s; now and then the ack is late or never comes). The request is unique (own first bytes + tag) and the acknowledgement
+    echoes all of it, so the acknowledgement that arrives after the caller has gone belongs to no later request. The connection is
+    used further afterwards (rest of the program, drain reads)."""
+    uid[0] += 1
+    data = rng.choice(GIVEUP_HEADS) + uid[0].to_bytes(2, "big").hex() + rng.randbytes(rng.choice([0, 0, 3])).hex()
+    react = reaction(rng, sc, pre, ackkind, post, uid, slow=True)
+    bound = min([d for d, s in react if s[0] in ("ACK", "TU", "N")] + [ACK_TIME])
+    if not DATA_BEFORE_CALLER_TIMEOUT:
+        bound = min([d for d, s in react if s[0] == "D"] + [bound])
+    return {"op": "W", "data": data, "react": react, "timeout": round(bound * rng.choice([0.2, 0.5, 0.9]), 6)}
+
+
 def random_program(rng: random.Random, uid0: int = 0, addr: tuple[int, int] | None = None) -> dict[str, Any]:
     """several writes/reads/idle phases with injected frames in every phase, then drained"""
     sc = base_scenario(rng)
@@ -760,7 +869,18 @@ def random_program(rng: random.Random, uid0: int = 0, addr: tuple[int, int] | No
         pre = rng.choices(LETTERS, weights=[4, 2, 3, 1, 1, 1, 1], k=rng.choice([0, 0, 1, 2, 3]))
         post = rng.choices(LETTERS[:5], weights=[5, 2, 2, 1, 1], k=rng.choice([0, 1, 2, 3]))
         ackkind = rng.choices(["ack", "tu", "nack", "none", "late"], weights=[10, 2, 2, 1, 1])[0]
-        ops.append({"op": "W", "data": rng.choice(["22f190", "1003", "3e00", "2e123400"]) + rng.randbytes(rng.choice([0, 0, 3, 30])).hex(), "react": reaction(rng, sc, pre, ackkind, post, uid)})
+        how = rng.random()
+        if how < 0.15:
+            if not DATA_BEFORE_CALLER_TIMEOUT and pending_d:
+                # quiet first: every diagnostic message sent so far has arrived and has been read when the caller-timeout write starts
+                ops.append({"op": "idle", "dt": settle_time(ops)})
+                ops.extend({"op": "R", "timeout": 0.6} for _ in range(pending_d))
+                pending_d = 0
+            ops.append(giveup_write(rng, sc, pre, ackkind, post, uid))
+        else:
+            ops.append({"op": "W", "data": rng.choice(["22f190", "1003", "3e00", "2e123400"]) + rng.randbytes(rng.choice([0, 0, 3, 30])).hex(), "react": reaction(rng, sc, pre, ackkind, post, uid)})
+            if how < 0.22:
+                ops[-1]["timeout"] = rng.choice([2.5, 4.0])  # a caller timeout that never strikes (longer than the acknowledgement time)
         pending_d += sum(1 for l in pre + post if l == "D")
         for _ in range(rng.randint(0, 2)):
             k = rng.random()
@@ -777,6 +897,9 @@ def random_program(rng: random.Random, uid0: int = 0, addr: tuple[int, int] | No
                 arr = [(rng.choice([0.01, 0.2]), letter_spec(rng, sc, rng.choice(["A", "A", "D", "F", "U"]), uid))]
                 pending_d += 1 if arr[0][1][0] == "D" else 0
                 ops.append({"op": "idle", "dt": rng.choice([0.3, 0.6, 1.0]), "arrive": arr})
+    if any(o["op"] == "W" and o.get("timeout", 9.9) < ACK_TIME for o in ops):
+        # the rest of a slow reaction whose write was given up early arrives while the connection is idle, before the drain reads
+        ops.append({"op": "idle", "dt": settle_time(ops)})
     for _ in range(pending_d + 1):
         ops.append({"op": "R", "timeout": 0.6})
     sc["ops"] = ops
@@ -997,7 +1120,7 @@ async def _concurrent_writers(sc: dict[str, Any], latency: float) -> list[Any]:
         def on_frame(now: float, fr: bytes) -> None:
             ptype = struct.unpack("!H", fr[2:4])[0]
             if ptype == 0x0005:
-                g.send(0.01, f_rar(sc["ver"], sc["src"], sc["tgt"], 0x10), "RAR")
+                g.send(0.01, f_rar(sc["ver"], sc["src"], entity_of(sc), 0x10), "RAR")
             elif ptype == 0x8001:
                 g.send(latency, f_ack(sc["ver"], sc["tgt"], sc["src"], fr[12:]), "ACK")
 
